@@ -762,6 +762,14 @@ struct Case {
         if (split) op_data(gi, 1 - gdir, 1, false);
         for (size_t i = 0; i < n; ++i) {
             int d = split && (i & 1) ? 1 - gdir : gdir;
+            if (big && mode >= 6 && i + 1 == n) {
+                // the segment that reaches the target count also ends the connection (RST / FIN riding on out-of-order
+                // data): both the limit and the close have to be handled for one and the same packet
+                Seg sg = make_seg(gi, d, 1, F_ACK | F_PSH | (mode == 6 ? F_RST : F_FIN));
+                send_seg(gi, d, sg);
+                labels.insert("limit-and-close-on-one-packet");
+                break;
+            }
             op_data(gi, d, 1, true);
             if (big && !m.find_live(g[gi].key)) break;
         }
